@@ -286,11 +286,11 @@ func genC18(repo string, maxObligations int) ([]byte, int, error) {
 				mk = func(inner string) string { return fmt.Sprintf("&%s{%s: *(%s)}", tq, e.field, inner) }
 			case "sliceptr":
 				mk = func(inner string) string {
-					return fmt.Sprintf("&%s{%s: []*%s{%s}}", tq, e.field, qual(e.to), inner)
+					return fmt.Sprintf("&%s{%s: c18Sl(sib, &%s{}, %s)}", tq, e.field, qual(e.to), inner)
 				}
 			case "sliceval":
 				mk = func(inner string) string {
-					return fmt.Sprintf("&%s{%s: []%s{*(%s)}}", tq, e.field, qual(e.to), inner)
+					return fmt.Sprintf("&%s{%s: c18Sl(sib, %s{}, *(%s))}", tq, e.field, qual(e.to), inner)
 				}
 			case "mapptr":
 				mk = func(inner string) string { return fmt.Sprintf("&%s{%s: map[%s]*%s{%s: %s}}", tq, e.field, e.keyT, qual(e.to), e.key, inner) }
@@ -340,7 +340,8 @@ func genC18(repo string, maxObligations int) ([]byte, int, error) {
 	}
 	sb.WriteString("\t}\n\treturn \"\"\n}\n\n")
 	sb.WriteString("// c18Build materialises the object graph of obligation i with the failure chain at the end of its path.\n")
-	sb.WriteString("func c18Build(i int, chain *c18Failure) any {\n\tswitch i {\n")
+	sb.WriteString("// c18Sl: the element on the path with empty sibling elements around it (sib 0: alone, 1: one before, 2: one after, 3: both)\nfunc c18Sl[T any](sib int, empty T, x T) []T {\n\tswitch sib {\n\tcase 1:\n\t\treturn []T{empty, x}\n\tcase 2:\n\t\treturn []T{x, empty}\n\tcase 3:\n\t\treturn []T{empty, x, empty}\n\t}\n\treturn []T{x}\n}\n\n")
+	sb.WriteString("func c18Build(i int, chain *c18Failure, sib int) any {\n\tswitch i {\n")
 	for i, o := range obs {
 		fmt.Fprintf(&sb, "\tcase %d:\n\t\treturn %s\n", i, o.expr)
 	}
